@@ -151,6 +151,11 @@ def dfa_from_table(D: DFA, table: Mapping[Tuple[int, int], bool]) -> DFA:
                     Q_[i].add(q[j])
                     R.add(q[j])
 
+    # states that were absorbed into an earlier class leave an empty entry behind
+    Q_ = [Q_i for Q_i in Q_ if Q_i]
+    n = len(Q_)
+    q = [next(iter(Q_i)) for Q_i in Q_]  # a representative of each class
+
     Q_r: Set[State] = set(map(state, Q_))
     F_r: Set[State] = set(state(Q_[i]) for i in range(n) if q[i] in F)
     q_r = state(next(Q_i for Q_i in Q_ if q0 in Q_i))
